@@ -524,10 +524,41 @@ func (c *vfClient) answer(ctx context.Context, addr string, req *tikvrpc.Request
 		re = &errorpb.Error{DiskFull: &errorpb.DiskFull{}}
 	case "UK":
 		re = &errorpb.Error{}
+	// rarely produced answers
+	case "UR":
+		re = &errorpb.Error{UndeterminedResult: &errorpb.UndeterminedResult{}}
+	case "RP":
+		re = &errorpb.Error{RecoveryInProgress: &errorpb.RecoveryInProgress{RegionId: req.RegionId}}
+	case "IW":
+		re = &errorpb.Error{IsWitness: &errorpb.IsWitness{RegionId: req.RegionId}}
+	case "FP":
+		re = &errorpb.Error{FlashbackInProgress: &errorpb.FlashbackInProgress{RegionId: req.RegionId}}
+	case "FN":
+		re = &errorpb.Error{FlashbackNotPrepared: &errorpb.FlashbackNotPrepared{RegionId: req.RegionId}}
+	case "KN":
+		re = &errorpb.Error{KeyNotInRegion: &errorpb.KeyNotInRegion{RegionId: req.RegionId}}
+	case "BV":
+		re = &errorpb.Error{BucketVersionNotMatch: &errorpb.BucketVersionNotMatch{Version: 7}}
+	case "MP":
+		re = &errorpb.Error{MismatchPeerId: &errorpb.MismatchPeerId{RequestPeerId: 1, StorePeerId: 2}}
+	case "RL":
+		re = &errorpb.Error{RaftEntryTooLarge: &errorpb.RaftEntryTooLarge{RegionId: req.RegionId}}
+	case "NI":
+		re = &errorpb.Error{RegionNotInitialized: &errorpb.RegionNotInitialized{RegionId: req.RegionId}}
+	case "RN":
+		re = &errorpb.Error{ReadIndexNotReady: &errorpb.ReadIndexNotReady{RegionId: req.RegionId}}
+	case "PM":
+		re = &errorpb.Error{ProposalInMergingMode: &errorpb.ProposalInMergingMode{RegionId: req.RegionId}}
+	case "IM":
+		re = &errorpb.Error{Message: "invalid max_ts update: 5"}
+	case "DM":
+		re = &errorpb.Error{Message: "Deadline is exceeded"}
 	default:
 		panic("verif: unknown script symbol " + sym)
 	}
-	re.Message = "unknown-kind " + tag
+	if re.Message == "" {
+		re.Message = "unknown-kind " + tag
+	}
 	return vfMkResp(req, re), nil
 }
 
@@ -584,7 +615,10 @@ func (f *vfFix) region() *Region {
 }
 
 var vfKindName = map[string]string{"tikvRPC": "rpc", "regionMiss": "miss", "regionScheduling": "sched", "tikvServerBusy": "busy",
-	"tikvDiskFull": "disk", "maxTsNotSynced": "maxts"}
+	"tikvDiskFull": "disk", "maxTsNotSynced": "maxts", "regionRecoveryInProgress": "recov", "isWitness": "witness", "regionNotInitialized": "notinit"}
+
+var vfFatal = map[string]bool{"FP": true, "FN": true, "RL": true, "IM": true}
+var vfRare = []string{"UR", "RP", "IW", "FP", "FN", "KN", "BV", "MP", "RL", "NI", "RN", "PM", "IM", "DM"}
 
 type vfRes struct {
 	preLines []string
@@ -923,7 +957,7 @@ func (f *vfFix) run1(c vfCfg, script []string, reset bool, keepAfter bool) vfRes
 	case 'E':
 		// an error is only allowed once the back-off budget is spent (or validation failed)
 		spent := total-excl >= c.ms || (excl >= vfExclLimit && excl >= c.ms)
-		if !(c.read && !c.val) && !spent && c.cx == "-" && c.kl == "-" {
+		if !(c.read && !c.val) && !spent && c.cx == "-" && c.kl == "-" && !vfFatal[r.lastAns] {
 			fails = append(fails, "error-before-budget-spent")
 		}
 	case 'F':
@@ -1229,7 +1263,7 @@ func VerifSendReqMain(args []string) int {
 	rng := rand.New(rand.NewSource(int64(seed)*7919 + 17))
 	base := vfBaseCfgs()
 	// class A: every base configuration x all scripts up to L
-	LA, LB, nRand, nRandFw := 4, 2, 30000, 6000
+	LA, LB, nRand, nRandFw := 4, 2, 20000, 3000
 	alphaA := vfAlphaQuick
 	if thorough {
 		LA, LB, nRand, nRandFw = 5, 3, 400000, 60000
@@ -1281,6 +1315,24 @@ func VerifSendReqMain(args []string) int {
 			g.enum(c, alphaA, nil, L)
 		}
 	}
+	// class R: rarely produced answers (UndeterminedResult, RecoveryInProgress, IsWitness, Flashback*, KeyNotInRegion,
+	// BucketVersionNotMatch, MismatchPeerId, RaftEntryTooLarge, RegionNotInitialized, ReadIndexNotReady, ProposalInMergingMode,
+	// "invalid max_ts update", "Deadline is exceeded" message) mixed with common ones: all scripts up to length 2 (3)
+	{
+		alphaR := append(append([]string{}, vfRare...), "Er", "N1", "SC", "B0", "B1", "DN")
+		LR := 2
+		if thorough {
+			LR = 3
+		}
+		for _, c := range base {
+			g.enum(c, alphaR, nil, LR)
+			for _, f := range []func(*vfCfg){func(d *vfCfg) { d.thr = true; d.shortTO = true }, func(d *vfCfg) { d.ms = 1 }, func(d *vfCfg) { d.ms = 120 }, func(d *vfCfg) { d.fw = true; d.live = [3]byte{'U', 'R', 'R'} }} {
+				d := c
+				f(&d)
+				g.enum(d, alphaR, nil, LR)
+			}
+		}
+	}
 	// class S: sequences of calls on the SAME cached region with forwarding on: what call 1 (and 2) leave in the cache —
 	// memoised proxy, store liveness / epochs / slow marks, leader switches — is the initial state of the next call
 	{
@@ -1299,6 +1351,11 @@ func VerifSendReqMain(args []string) int {
 			for _, b := range s1 {
 				firsts = append(firsts, a+"+"+b)
 			}
+		}
+		// a rarely produced answer after a leader switch: whether the handler invalidated the cached region shows in the
+		// next call (reloaded from PD: leader 0 again) — compared with the model's predicted cache state
+		for _, x := range vfRare {
+			firsts = append(firsts, "N1+"+x)
 		}
 		var lasts [][]string
 		lasts = append(lasts, nil)
@@ -1345,7 +1402,10 @@ func VerifSendReqMain(args []string) int {
 	if thorough {
 		LH = 3
 	}
-	trigs := []string{"P", "A0", "A1", "A2", "B0", "B1"}
+	trigs := []string{"P", "A0", "A1", "B0"}
+	if thorough {
+		trigs = []string{"P", "A0", "A1", "A2", "B0", "B1"}
+	}
 	for _, c := range base {
 		for _, t := range trigs {
 			d := c
@@ -1423,6 +1483,7 @@ func VerifSendReqMain(args []string) int {
 	}
 	// class C: random configurations x random scripts (weighted towards retryable outcomes)
 	weighted := append(append([]string{}, vfAlphaAll...), "N0", "N1", "N2", "N0", "N1", "N2", "B0", "B0", "B1", "Er", "Er", "Eu", "DN", "SC", "UK", "NL", "Dr", "MT", "EB")
+	weighted = append(weighted, vfRare...)
 	for i := 0; i < nRand+nRandFw; i++ {
 		c := vfRandCfg(rng, i >= nRand)
 		n := 4 + rng.Intn(12)
